@@ -432,6 +432,13 @@ func Replay(harnesses map[string]func()) (status, detail string) {
 		b, _ := json.Marshal(Trace)
 		return "observed", string(b)
 	}
+	// the violated assertion may already have failed before a later draw (absent from the model,
+	// which ends at the assertion) made an assumption false or the harness panic
+	for _, f := range Failed {
+		if f == cex.Label {
+			return "reproduced", fmt.Sprintf("assertion %q fails natively; missing draws: %v", f, Missing)
+		}
+	}
 	if _, isAssume := panicked.(AssumeFailed); isAssume {
 		return "not-reproduced", "an assumption of the harness is false under the model natively (model mismatch)"
 	}
